@@ -745,7 +745,26 @@ TupleCallFamily ==
                PrintS(Var("x")), [k |-> "printm", s |-> "m1"], [k |-> "printg"] >>) :
         x0 \in {0, 1}, mf \in {"lit", "make", "nil"}, fm \in {"xfirst", "afirst"}, tgt \in TupleCallTargets,
         a \in {Bin("add", Var("x"), Lit(1)), Lit(3), Var("g1")} }
-InitLoopFam == prog \in LoopFamily \cup SwitchFamily \cup TupleFamily \cup TupleCallFamily /\ res = Run(prog)
+(* SelFamily: receive statements with an assignment in a select case. Every kind of operand on the left  *)
+(* (variable, field, array element, pointer indirection, map entry - of a nil map too), with and without   *)
+(* the ok operand, a clause body and a default clause, on a channel that holds a value, is empty (default  *)
+(* taken, or nothing emitted: the program would block) or is closed; two such statements in sequence.       *)
+SelDsts == {"var", "fld", "arr", "ptr", "map"}
+SelFamily ==
+    { WProg("", <<>>,
+            << [k |-> "def", x |-> "x", e |-> Lit(3)],
+               [k |-> "mkptr", p |-> "p1", x |-> "x"],
+               [k |-> "mkmap", s |-> "m1", form |-> mf, ks |-> IF mf = "lit" THEN <<1>> ELSE <<>>, es |-> IF mf = "lit" THEN <<Lit(9)>> ELSE <<>>],
+               [k |-> "mkch", s |-> "ch1"] >>
+            \o (IF ns >= 1 THEN << [k |-> "chsend", s |-> "ch1", e |-> Lit(7)] >> ELSE <<>>)
+            \o (IF cl THEN << [k |-> "chclose", s |-> "ch1"] >> ELSE <<>>)
+            \o << [k |-> "chsel", id |-> 101, s |-> "ch1", form |-> d, x |-> (CASE d = "ptr" -> "p1" [] d = "map" -> "m1" [] OTHER -> "x"),
+                   ok2 |-> ok, hb |-> hb, hd |-> hd],
+                  [k |-> "chsel", id |-> 102, s |-> "ch1", form |-> d, x |-> (CASE d = "ptr" -> "p1" [] d = "map" -> "m1" [] OTHER -> "x"),
+                   ok2 |-> ~ok, hb |-> hb, hd |-> TRUE],
+                  PrintS(Var("x")), [k |-> "printm", s |-> "m1"], [k |-> "printg"] >>) :
+        d \in SelDsts, mf \in {"lit", "nil"}, ns \in 0..1, cl \in BOOLEAN, ok \in BOOLEAN, hb \in BOOLEAN, hd \in BOOLEAN }
+InitLoopFam == prog \in LoopFamily \cup SwitchFamily \cup TupleFamily \cup TupleCallFamily \cup SelFamily /\ res = Run(prog)
 SpecLoopFam == InitLoopFam /\ [][UNCHANGED vars]_vars
 
 InitFam == prog \in FamilyDefer /\ res = Run(prog)
